@@ -127,3 +127,34 @@ package bitcoin
 //@   reach signed@sig: len(sig) == 64
 //@   ensures result
 //@   modifies rdstate(rand), rdstate(osrand())
+//@
+//@ func (*SchnorrPrivateKey).Equal
+//@   props C14 C18
+//@   split dyn x SchnorrPrivateKey
+//@   ensures isdyn(x, SchnorrPrivateKey) ==> (result <==> val(k.dPrime) == val(x.(*SchnorrPrivateKey).dPrime))
+//@   ensures !isdyn(x, SchnorrPrivateKey) ==> !result
+//@
+//@ func (*SchnorrPublicKey).Equal
+//@   props C13 C18
+//@   split dyn x SchnorrPublicKey
+//@   ensures isdyn(x, SchnorrPublicKey) ==> (result <==> abs(k.point) == abs(x.(*SchnorrPublicKey).point))
+//@   ensures !isdyn(x, SchnorrPublicKey) ==> !result
+//@   using aff_oncurve(abs(k.point))
+//@   using aff_oncurve(abs(x.(*SchnorrPublicKey).point))
+//@   using ptxy_point(abs(k.point))
+//@   using ptxy_point(abs(x.(*SchnorrPublicKey).point))
+//@
+//@ func NewSchnorrPrivateKey
+//@   props C14 C18
+//@   split len(key) in 32..32 else
+//@   split case len(key) == 32 && os2ipv(key) >= 1 && os2ipv(key) < N
+//@   ensures (len(key) == 32 && os2ipv(key) >= 1 && os2ipv(key) < N) <==> (result1 == nil)
+//@   ensures result1 == nil ==> val(result0.dPrime) == fn(os2ipv(key)) && fresh(result0.dPrime) && fresh(result0.d)
+//@   ensures result1 != nil ==> result0 == nil
+//@   fresh result0
+//@
+//@ func NewSchnorrPublicKeyFromECDSA
+//@   props C14 C18
+//@   requires !isnil(pk)
+//@   ensures abs(result.point) == ite(lift(affy(abs(pk.point))) % 2 == 0, abs(pk.point), pneg(abs(pk.point))) && fresh(result.xBytes) && fresh(result.point)
+//@   fresh result
